@@ -1,3 +1,4 @@
+import Ntrip.Guards.Apps_tolerance
 import Ntrip.Properties.C13
 import Ntrip.Generated.Consts
 import Ntrip.Generated.Layouts
@@ -29,5 +30,8 @@ theorem tie_handover :
 
 /-- Tie T1 (guards): the conditions and loops of `Handle` (which results stop it, which are tolerated, when a byte is forwarded). -/
 theorem tie_guards_reader : type_of% Ntrip.Guards.reader := Ntrip.Guards.reader
+
+/-- Tie T1: the tolerance and the retry pause are read from their own configuration fields. -/
+theorem tie_tolerance_accessors : type_of% Ntrip.Guards.tolerance_accessors := Ntrip.Guards.tolerance_accessors
 
 end Ntrip.C13
